@@ -116,31 +116,40 @@ def expectedObserves : List (String × String × String × String) :=
    ("Component", "layer", "layerGlyphNameChangedNotificationCallback", "Layer.GlyphNameChanged"),
    ("Component", "layer", "layerGlyphWillBeDeletedNotificationCallback", "Layer.GlyphWillBeDeleted")]
 
+def glyphOutlineMethods : List String :=
+  ["_contourChanged", "_componentChanged", "_componentBaseGlyphDataChanged", "insertContour",
+   "removeContour", "insertComponent", "removeComponent"]
+
+def compCallbacks : List String :=
+  ["baseGlyphDataChangedNotificationCallback", "baseGlyphNameChangedNotificationCallback",
+   "layerGlyphNameChangedNotificationCallback", "layerGlyphWillBeDeletedNotificationCallback",
+   "layerGlyphAddedNotificationCallback"]
+
+/-- the individual coverage obligations -/
+def covList (T : Tables) : List Bool :=
+  [contourMutators.all (fun p => covCell T "Contour" p.2 (T.postsOf "Contour" p.1)),
+   -- Contour.move: its own loop destroys every built-in factory it does not patch; the rest goes by Contour.Changed
+   (T.postsOf "Contour" "move").contains "Contour.PointsChanged",
+   (T.factoriesOf "Contour").all (fun p => boundsNames.contains p.1 || p.2.hit "Contour.PointsChanged"),
+   covCell T "Contour" .attr (moveNotifs T),
+   compMutators.all (fun p => covCell T "Component" p.2 (T.postsOf "Component" p.1)),
+   covCell T "Component" .pts (T.postsOf "Component" "_set_baseGlyph"),
+   glyphOutlineMethods.all (covGlyphOutline T),
+   glyphMutators.all (fun m => hitsReg T "Glyph" (T.postsOf "Glyph" m)),
+   hitsReg T "Glyph" (T.postsOf "Glyph" "_set_name"),
+   compCallbacks.all (covCompCallback T),
+   groupsMutators.all (fun m => hitsAll T "Groups" (T.postsOf "Groups" m)),
+   expectedObserves.all (fun e => T.observes.contains e),
+   (T.postsOf "Layer" "__delitem__").contains "Layer.GlyphWillBeDeleted",
+   (T.postsOf "Layer" "newGlyph").contains "Layer.GlyphAdded",
+   (T.postsOf "Layer" "_glyphNameChange").contains "Layer.GlyphNameChanged",
+   (T.postsOf "Glyph" "_set_name").contains "Glyph.NameChanged"]
+
 /-- The coverage obligation: every declared mutator posts something that destroys every
 representation reading the cell it rewrites, on the object itself and along the routes
 (contour → glyph → components that reference the glyph → their glyphs → …); the routes the model
 walks are the `addObserver` calls found in the source. -/
-def Coverage (T : Tables) : Bool :=
-  contourMutators.all (fun p => covCell T "Contour" p.2 (T.postsOf "Contour" p.1)) &&
-  -- Contour.move: its own loop destroys every built-in factory it does not patch; the rest goes by Contour.Changed
-  (T.postsOf "Contour" "move").contains "Contour.PointsChanged" &&
-  (T.factoriesOf "Contour").all (fun p => boundsNames.contains p.1 || p.2.hit "Contour.PointsChanged") &&
-  covCell T "Contour" .attr (moveNotifs T) &&
-  compMutators.all (fun p => covCell T "Component" p.2 (T.postsOf "Component" p.1)) &&
-  covCell T "Component" .pts (T.postsOf "Component" "_set_baseGlyph") &&
-  ["_contourChanged", "_componentChanged", "_componentBaseGlyphDataChanged", "insertContour",
-   "removeContour", "insertComponent", "removeComponent"].all (covGlyphOutline T) &&
-  glyphMutators.all (fun m => hitsReg T "Glyph" (T.postsOf "Glyph" m)) &&
-  hitsReg T "Glyph" (T.postsOf "Glyph" "_set_name") &&
-  ["baseGlyphDataChangedNotificationCallback", "baseGlyphNameChangedNotificationCallback",
-   "layerGlyphNameChangedNotificationCallback", "layerGlyphWillBeDeletedNotificationCallback",
-   "layerGlyphAddedNotificationCallback"].all (covCompCallback T) &&
-  groupsMutators.all (fun m => hitsAll T "Groups" (T.postsOf "Groups" m)) &&
-  expectedObserves.all (fun e => T.observes.contains e) &&
-  (T.postsOf "Layer" "__delitem__").contains "Layer.GlyphWillBeDeleted" &&
-  (T.postsOf "Layer" "newGlyph").contains "Layer.GlyphAdded" &&
-  (T.postsOf "Layer" "_glyphNameChange").contains "Layer.GlyphNameChanged" &&
-  (T.postsOf "Glyph" "_set_name").contains "Glyph.NameChanged"
+def Coverage (T : Tables) : Bool := (covList T).all id
 
 end Repr
 end DefconModel
